@@ -6,6 +6,10 @@ import Hw.Topo.RestrictLemmas
 import Hw.Topo.Render
 import Hw.Topo.RenderLemmas
 import Hw.Topo.RenderOf
+import Hw.Topo.RestrictSurvive
+import Hw.Topo.RestrictMerge
+import Hw.Topo.RenderTop
+import Hw.Topo.RenderSets
 import Hw.Topo.WF
 import Driver.Topo
 import Driver.Util
@@ -91,20 +95,51 @@ def levelsOfDump (d : Dump) : List (List Nat) :=
 inductive SideEffect where
   | unchanged | restricted (t : Tree) | unknown
 
+/-- A8: the statements of C08_pus_exact / C08_numa_survive / C08_numas_exact_bynodeset / C08_pu_survive_bynodeset evaluated against
+    the REAL after dump (level merging included): with the protection predicates of Hw.Topo.RestrictSurvive computed on the objects
+    of the BEFORE tree and the parameters of the model's `plan`, the PUs (NUMA nodes with BYNODESET) of hwloc's result must be
+    exactly the protected ones, the NUMA nodes (PUs) must include the protected ones, and each must still be a singleton -/
+def survivorsCheck (tree : Tree) (topo : Topo) (c : Call) (ad : Dump) : List String :=
+  match plan topo c.set c.flags with
+  | none => ["model-plan-refuses-a-successful-call"]
+  | some p =>
+    let objs := objsT tree
+    let gpsOf (ty : Nat) : List Nat := (ad.objs.filter (fun o => o.type == ty)).map (·.gp)
+    let same (a b : List Nat) : Bool := a.length == b.length && a.all b.contains && b.all a.contains
+    let puA := gpsOf tPU
+    let numaA := gpsOf tNUMA
+    let singles := ad.objs.all (fun o =>
+      (o.type != tPU || (o.cpuset == some (single o.osidx.toNat) && o.ccpuset == some (single o.osidx.toNat))) &&
+      (o.type != tNUMA || (o.nodeset == some (single o.osidx.toNat) && o.cnodeset == some (single o.osidx.toNat))))
+    (if p.byNode then
+      (if same ((objs.filter (protNUMAn c.set)).map (·.gp)) numaA then [] else ["numa-survivors-are-not-exactly-those-in-S"]) ++
+      (if ((objs.filter (protPUn p)).map (·.gp)).all puA.contains then [] else ["pu-removed-though-not-memoryless"])
+    else
+      (if same ((objs.filter (protPU c.set)).map (·.gp)) puA then [] else ["pu-survivors-are-not-exactly-those-in-S"]) ++
+      (if ((objs.filter (protNUMA p)).map (·.gp)).all numaA.contains then [] else ["numa-removed-though-not-cpuless"])) ++
+    (if singles then [] else ["pu-or-numa-not-a-singleton-after"])
+
 def verdict (st : State) (c : Call) (bd : Dump) (braw : List (List String)) (ad : Dump) (araw : List (List String)) : String × SideEffect :=
   match treeOf bd with
   | .error e => ("MODEL-INPUT-ERROR before-dump-is-not-a-tree:" ++ e, .unknown)
   | .ok tree =>
     let topo := topoOf bd tree
+    let wfB := wfCheck bd      -- evaluated once (A8)
     -- the hypothesis of the exactness theorems must hold on every well-formed BEFORE dump (WF implies SetsOK)
-    let hyp := (if okT tree || !(wfCheck bd).isEmpty then [] else ["hypothesis-SetsOK-fails-on-a-WF-before-dump"]) ++
+    let hyp := (if okT tree || !wfB.isEmpty then [] else ["hypothesis-SetsOK-fails-on-a-WF-before-dump"]) ++
                (if st.selfcheck && (connectLevels tree).map (·.map (·.gp)) != levelsOfDump bd then ["selfcheck-levels-model-before"] else [])
     -- renderer tie on the BEFORE dump: links and levels recomputed from the bare tree must reproduce hwloc's
     let tb := gpTable bd
     let hyp := hyp ++ (match dumpDiff (render tree (hdrOf bd) (extraOf tb tb)) bd with
       | none => [] | some s => ["render-before:" ++ s]) ++
       -- hypothesis of the link theorems (C08_render_links): every well-formed topology has a typed tree
-      (if (typedT tree && puLeafT tree && isNormal tree.obj.type) || !(wfCheck bd).isEmpty then [] else ["hypothesis-typedT-fails-on-a-WF-before-dump"])
+      (if (typedT tree && puLeafT tree && isNormal tree.obj.type) || !wfB.isEmpty then [] else ["hypothesis-typedT-fails-on-a-WF-before-dump"]) ++
+      -- A8: what C08_wf_implies_okT proves for every WF dump, evaluated: Machine root, PU / NUMA singletons, leaf hypotheses
+      (if (tree.obj.type == tMACHINE && puSetsT tree && numaSetsT tree && leafTyT tPU tree && leafTyT tNUMA tree) ||
+          !wfB.isEmpty then [] else ["hypothesis-singletons-fails-on-a-WF-before-dump"]) ++
+      -- A8: hypothesis of C08_merge_keeps_pus / C08_pus_exact_whole / C08_restrict_wf_partial: distinct gp_index over the TREE, no
+      -- KEEP_STRUCTURE filter on the PU type and on the root's type
+      (if (decide (mergeSafe topo) && decide (machineOnce tree) && setsPresT tree) || !wfB.isEmpty then [] else ["hypothesis-mergeSafe-fails-on-a-WF-before-dump"])
     let (topo', ret) := restrict topo c.set c.flags
     match ret with
     | .rootRemoved => ("MODEL-UNDEFINED root-would-be-removed", .unknown)
@@ -114,7 +149,7 @@ def verdict (st : State) (c : Call) (bd : Dump) (braw : List (List String)) (ad 
     | .ok =>
       -- well-formedness must be preserved: clauses violated after the call that were not already violated before it
       let clause (s : String) : String := (s.splitOn "@").headD s
-      let wfBefore := (wfCheck bd).map clause
+      let wfBefore := wfB.map clause
       let wf := (wfCheck ad).filter (fun s => !wfBefore.contains (clause s))
       let probs := hyp ++
         (match firstDiff (rowsT (-1) topo'.tree) (rowsOfDump ad) with | none => [] | some s => [s]) ++
@@ -126,7 +161,11 @@ def verdict (st : State) (c : Call) (bd : Dump) (braw : List (List String)) (ad 
         (match dumpDiff (render topo'.tree ⟨bd.flags, bd.filters, some topo'.allowedCpu, some topo'.allowedNode⟩
                           (extraOf tb (gpTable ad))) ad with
           | none => [] | some s => ["render-after:" ++ s]) ++
-        (if (typedT topo'.tree && puLeafT topo'.tree && isNormal topo'.tree.obj.type) || !(typedT tree && puLeafT tree) then [] else ["hypothesis-typedT-not-preserved"])
+        (if (typedT topo'.tree && puLeafT topo'.tree && isNormal topo'.tree.obj.type) || !(typedT tree && puLeafT tree) then [] else ["hypothesis-typedT-not-preserved"]) ++
+        (if wfB.isEmpty then survivorsCheck tree topo c ad else []) ++
+        -- A8: C08_restrict_leaf_root evaluated: mergeSafe and the identity of the root are preserved
+        (if (decide (mergeSafe topo') && ident topo'.tree.obj == ident tree.obj) || !(decide (mergeSafe topo) && typedT tree && puLeafT tree)
+          then [] else ["mergeSafe-or-root-not-preserved"])
       ("ret=0 errno=ok" ++ (if probs.isEmpty then "" else " MISMATCH " ++ ",".intercalate probs), .restricted topo'.tree)
 
 def sideObjs (t : Tree) : List Hw.Dist.Obj := (rowsT (-1) t).map (fun r => RestrictSide.mkObj r.type r.gp r.osidx)
